@@ -880,7 +880,11 @@ func makeLenThenAppendRule(p *engine.Prog, r *engine.Report, rule string, pkgs [
 				}
 			}
 		}
-		r.Check(found, rule, anchor+"|make(…, 0, n) then append (control)", p.Pos(f.Pos()), "found", "the confirmed make-with-capacity site is not found any more")
+		if found {
+			r.OK(rule, anchor+"|make(…, 0, n) then append (control)", p.Pos(f.Pos()), "found")
+		} else {
+			r.Note(rule, anchor+"|make(…, 0, n) then append (control)", p.Pos(f.Pos()), "the confirmed make-with-capacity site is not found in this function any more (informational: the scan covers every function of the packages)")
+		}
 	}
 	r.OK(rule, "scan|functions scanned for make-len-then-append", "", fmt.Sprint(n))
 }
@@ -984,6 +988,44 @@ func keyPackageSlotRule(p *engine.Prog, r *engine.Report, rule string) {
 // C17-R12: at start-up the persisted ceremony data is read back before anything rewrites it: in
 // ValidationCeremony.Initialize no call that reaches qualification.persist (which rewrites the whole
 // answers record from memory) runs before restoreState.
+// reachesByCalls: target is reachable from fn through calls that are executed when fn runs (static
+// and interface calls, deferred calls, closures invoked on the spot) — a closure that fn merely
+// creates and registers somewhere (an event subscription) is not entered.
+func reachesByCalls(p *engine.Prog, fn, target *ssa.Function) bool {
+	seen := map[*ssa.Function]bool{}
+	work := []*ssa.Function{fn}
+	for len(work) > 0 {
+		f := work[len(work)-1]
+		work = work[:len(work)-1]
+		if f == nil || seen[f] || f.Blocks == nil {
+			continue
+		}
+		seen[f] = true
+		if f == target {
+			return true
+		}
+		for _, c := range engine.Calls(f) {
+			if _, isGo := c.(*ssa.Go); isGo {
+				continue
+			}
+			if sc := c.Common().StaticCallee(); sc != nil {
+				if engine.IsRepoPkg(engine.FuncPkg(sc)) {
+					work = append(work, sc)
+				}
+				continue
+			}
+			if c.Common().IsInvoke() {
+				for _, g := range p.SiteCallees(c) {
+					if engine.IsRepoPkg(engine.FuncPkg(g)) {
+						work = append(work, g)
+					}
+				}
+			}
+		}
+	}
+	return seen[target]
+}
+
 func restoreBeforePersistRule(p *engine.Prog, r *engine.Report, rule string) {
 	f := mustFunc(p, r, "core/ceremony", "ValidationCeremony.Initialize")
 	persist := mustFunc(p, r, "core/ceremony", "qualification.persist")
@@ -1004,8 +1046,7 @@ func restoreBeforePersistRule(p *engine.Prog, r *engine.Report, rule string) {
 		if sc == nil || !engine.IsRepoPkg(engine.FuncPkg(sc)) || sc == rs[0].Common().StaticCallee() {
 			continue
 		}
-		reach := p.Reach([]*ssa.Function{sc}, engine.ReachOpts{RepoOnly: true, NoFuncValueCHA: true})
-		if !reach[persist] {
+		if !reachesByCalls(p, sc, persist) {
 			continue
 		}
 		n++
@@ -1602,25 +1643,311 @@ func vrfScalarResultsTestedRule(p *engine.Prog, r *engine.Report, rule string) {
 	}
 }
 
+// C12-R19: the block processor dereferences tx.To unchecked for many transaction types; for every
+// such type the validator registered for it refuses an absent recipient on every accepting path.
+func recipientEstablishedRule(p *engine.Prog, r *engine.Report, rule string) {
+	pk := repoPkg(p, r, "blockchain/validation")
+	at := mustFunc(p, r, "blockchain", "Blockchain.applyTxOnState")
+	if pk == nil || at == nil {
+		return
+	}
+	// type constant -> validator name, from the registry literal
+	reg := map[string]string{}
+	names := map[string]string{}
+	for _, file := range pk.Syntax {
+		ast.Inspect(file, func(n ast.Node) bool {
+			cl, ok := n.(*ast.CompositeLit)
+			if !ok {
+				return true
+			}
+			for _, el := range cl.Elts {
+				kv, ok := el.(*ast.KeyValueExpr)
+				if !ok {
+					continue
+				}
+				id, ok := kv.Value.(*ast.Ident)
+				if !ok || !strings.HasPrefix(id.Name, "validate") {
+					continue
+				}
+				if tv, ok := pk.TypesInfo.Types[kv.Key]; ok && tv.Value != nil {
+					reg[tv.Value.ExactString()] = id.Name
+					names[tv.Value.ExactString()] = types.ExprString(kv.Key)
+				}
+			}
+			return true
+		})
+	}
+	if len(reg) < 10 {
+		r.Bad(rule, "validators|registry literal", "", "the validator registry literal was not found: anchor moved")
+		return
+	}
+	isToLoad := func(v ssa.Value) bool {
+		u, ok := engine.Unwrap(v).(*ssa.UnOp)
+		if !ok || u.Op != token.MUL {
+			return false
+		}
+		owner, fld, ok := engine.FieldOf(u.X)
+		return ok && fld == "To" && strings.Contains(owner, "Transaction")
+	}
+	toGuards := func(f *ssa.Function) []engine.Guard {
+		return guardsWhere(f, func(cond ssa.Value) (bool, bool, string) {
+			x, nonNilOnTrue, ok := engine.NilCheck(cond)
+			if !ok || !isToLoad(x) {
+				return false, false, ""
+			}
+			return true, nonNilOnTrue, "tx.To != nil"
+		})
+	}
+	// types whose case body dereferences tx.To unchecked
+	need := map[string]ssa.Instruction{}
+	own := toGuards(at)
+	for _, b := range at.Blocks {
+		for _, ins := range b.Instrs {
+			u, ok := ins.(*ssa.UnOp)
+			if !ok || u.Op != token.MUL || !isToLoad(u.X) {
+				continue
+			}
+			if len(own) > 0 && engine.OnlyThroughPass(at, b, own) {
+				continue
+			}
+			for _, iff := range engine.Ifs(at) {
+				bo, ok := iff.Cond.(*ssa.BinOp)
+				if !ok || bo.Op != token.EQL {
+					continue
+				}
+				c, isC := bo.Y.(*ssa.Const)
+				if !isC || c.Value == nil || c.Value.Kind() != constant.Int {
+					continue
+				}
+				lu, isU := engine.Unwrap(bo.X).(*ssa.UnOp)
+				if !isU {
+					continue
+				}
+				if _, fld, ok := engine.FieldOf(lu.X); !ok || fld != "Type" {
+					continue
+				}
+				if s := iff.Block().Succs[0]; s == b || s.Dominates(b) {
+					if _, seen := need[c.Value.ExactString()]; !seen {
+						need[c.Value.ExactString()] = ins
+					}
+				}
+			}
+		}
+	}
+	keys := []string{}
+	for k := range need {
+		keys = append(keys, k)
+	}
+	sort.Strings(keys)
+	for _, k := range keys {
+		vn, ok := reg[k]
+		if !ok {
+			r.Bad(rule, "type "+k+"|has a validator", p.InstrPos(need[k]), "applyTxOnState dereferences tx.To for a transaction type that has no registered validator")
+			continue
+		}
+		v := mustFunc(p, r, "blockchain/validation", vn)
+		if v == nil {
+			continue
+		}
+		guards := toGuards(v)
+		good := len(guards) > 0
+		for _, ret := range successReturns(v) {
+			if !engine.OnlyThroughPassRet(v, ret, guards) {
+				good = false
+			}
+		}
+		r.Check(good, rule, names[k]+"|"+vn+" refuses an absent recipient", p.InstrPos(need[k]), "every accepting path passes tx.To != nil", vn+" accepts a "+names[k]+" on a path that does not pass the tx.To != nil test, while the "+names[k]+" case of applyTxOnState dereferences tx.To unchecked: a decodable transaction without recipient in a block (or the mempool) makes the node panic instead of returning a verdict")
+	}
+	r.Floor(rule, 6, "transaction types whose processing dereferences tx.To")
+}
+
+// C12-R20: no panic statement is reachable from a peer-message entry point except the triaged ones:
+// every explicit panic(...) in a repo function reachable (resolved call graph, repo only) from the
+// gossip handler, the fork loader or the sync batch processors is in a frozen table with the reason
+// why peer data cannot reach it. A new panic on such a path (e.g. panic(err) where an error used to be
+// returned) is reported. Compiler-generated panics of blocking selects are skipped.
+var triagedPanics = map[string]string{
+	"BitCurve.ScalarMult":                            "scalars on the peer path are 32-byte slices of a length-checked proof or own keys",
+	"EnvImp.Event":                                   "contract code runs behind the VM's recover (deploy/call/terminate)",
+	"EnvImp.SetValue":                                "contract code runs behind the VM's recover",
+	"GasCounter.AddGas":                              "out-of-gas is signalled by panic and recovered by the VM",
+	"IdentityStateDB.CommitTree":                     "local database failure while pruning versions, not input dependent",
+	"StateDB.CommitTree":                             "local database failure while pruning versions, not input dependent",
+	"StateDB.CommitSnapshot":                         "local database failure, not input dependent",
+	"IdentityStateDB.updateStateIdentityObject":      "encoding of the node's own object cannot fail",
+	"StateDB.updateStateAccountObject":               "encoding of the node's own object cannot fail",
+	"StateDB.updateStateIdentityObject":              "encoding of the node's own object cannot fail",
+	"StateDB.updateStateGlobalObject":                "encoding of the node's own object cannot fail",
+	"StateDB.updateStateStatusSwitchObject":          "encoding of the node's own object cannot fail",
+	"StateDB.updateStateDelegationSwitchObject":      "encoding of the node's own object cannot fail",
+	"StateDB.updateStateDelayedOfflinePenaltyObject": "encoding of the node's own object cannot fail",
+	"StateDB.updateStateBurntCoinsObject":            "encoding of the node's own object cannot fail",
+	"StateDB.updateDiscriminationStatusSwitchObject": "encoding of the node's own object cannot fail",
+	"ImmutableTree.AvailableVersions":                "call-graph artefact: read-only trees are never written (Tree interface)",
+	"ImmutableTree.DeleteVersion":                    "call-graph artefact: read-only trees are never written",
+	"ImmutableTree.ExistVersion":                     "call-graph artefact: read-only trees are never written",
+	"ImmutableTree.LoadVersionForOverwriting":        "call-graph artefact: read-only trees are never written",
+	"ImmutableTree.Remove":                           "call-graph artefact: read-only trees are never written",
+	"ImmutableTree.Rollback":                         "call-graph artefact: read-only trees are never written",
+	"ImmutableTree.SaveVersionAt":                    "call-graph artefact: read-only trees are never written",
+	"ImmutableTree.Set":                              "call-graph artefact: read-only trees are never written",
+	"NewMutableTree":                                 "constructor error only for a non-positive cache size (constant)",
+	"PushPullManager.addPush":                        "every type inside pushPullHash.IsValid's range has a holder registered at start-up",
+	"ReadContextImpl.Caller":                         "read-only call context, API only",
+	"ReadContextImpl.PayAmount":                      "read-only call context, API only",
+	"VmImpl.ContractAddr":                            "callers switch on the three contract types first",
+	"assertNoError":                                  "local database failure, not input dependent",
+	"fastSync.processBatch":                          "constructor invariant (fast sync is created with its manifest)",
+	"httpConn.Write":                                 "call-graph artefact (io.Writer)",
+	"makeMsg":                                        "encoding of the node's own outgoing message",
+	"memoryIpfs.LoadTo":                              "test double",
+	"state.Write":                                    "hash API misuse, not input dependent",
+}
+
+func peerPathPanicsRule(p *engine.Prog, r *engine.Report, rule string) {
+	var entries []*ssa.Function
+	for _, e := range [][2]string{{"protocol", "IdenaGossipHandler.handle"}, {"consensus", "ForkResolver.loadAndVerifyFork"}, {"protocol", "fullSync.processBatch"}, {"protocol", "fastSync.processBatch"}, {"protocol", "fastSync.preConsuming"}, {"protocol", "fastSync.postConsuming"}} {
+		if f := mustFunc(p, r, e[0], e[1]); f != nil {
+			entries = append(entries, f)
+		}
+	}
+	reach := p.Reach(entries, engine.ReachOpts{RepoOnly: true, NoFuncValueCHA: true})
+	n := 0
+	for _, f := range engine.SortedFuncs(reach) {
+		if f.Blocks == nil || isTestish(p.Pos(f.Pos())) {
+			continue
+		}
+		for _, b := range f.Blocks {
+			for _, ins := range b.Instrs {
+				pn, ok := ins.(*ssa.Panic)
+				if !ok {
+					continue
+				}
+				if mi, isMI := pn.X.(*ssa.MakeInterface); isMI && isConstString(mi.X, "blocking select matched no case") {
+					continue
+				}
+				n++
+				name := engine.RelName(topParent(f))
+				why, known := triagedPanics[name]
+				r.Check(known, rule, uniq(r, name+"|panic reachable from a message handler is triaged"), p.InstrPos(pn), why, "a panic statement in "+engine.RelName(f)+" is reachable from a peer-message entry point (gossip handler, fork loader or sync batch processor) and is not in the triaged table: if peer data can steer execution there, one message ends the process (the handlers run without recover) — return an error instead, or add the function to the table with the reason it cannot be reached by input")
+			}
+		}
+	}
+	r.Floor(rule, 30, "explicit panics reachable from the peer entry points (triaged by reading)")
+	_ = n
+}
+
+// C12-R21: the tree importer is fed with the nodes of a downloaded snapshot file (chosen by the peer
+// that advertised the manifest) only by a function that checks Add's error and runs under its own
+// deferred recover: the importer hashes a node before it validates it and panics on a malformed
+// sequence (an inner node whose children were not imported), and the root is compared only afterwards.
+func importerFedSafelyRule(p *engine.Prog, r *engine.Report, rule string) {
+	n := 0
+	for _, f := range funcsOfPkg(p, "core/state") {
+		if f.Blocks == nil || isTestish(p.Pos(f.Pos())) {
+			continue
+		}
+		for _, c := range engine.Calls(f) {
+			o := engine.CalleeObj(c.Common())
+			if o == nil || o.Name() != "Add" || o.Pkg() == nil || !strings.HasSuffix(o.Pkg().Path(), "/iavl") {
+				continue
+			}
+			sig, _ := o.Type().(*types.Signature)
+			if sig == nil || sig.Recv() == nil || !strings.Contains(sig.Recv().Type().String(), "Importer") {
+				continue
+			}
+			n++
+			r.Fn(engine.FuncName(f))
+			// (a) error result tested
+			tested := false
+			if cv, ok := c.(*ssa.Call); ok {
+				tested = len(nilErrGuards(f, cv)) > 0
+			}
+			r.Check(tested, rule, uniq(r, engine.RelName(f)+"|the importer's refusal of a node is not dropped"), p.InstrPos(c), "Add's error is tested", "the error of Importer.Add is dropped: a node the importer refused is skipped silently and the import goes on with a stack that no longer matches the file")
+			// (b) deferred recover in the same function (top-level parent)
+			top := topParent(f)
+			rec := false
+			for _, b := range top.Blocks {
+				for _, ins := range b.Instrs {
+					d, ok := ins.(*ssa.Defer)
+					if !ok {
+						continue
+					}
+					var body *ssa.Function
+					if mc, ok := d.Call.Value.(*ssa.MakeClosure); ok {
+						body, _ = mc.Fn.(*ssa.Function)
+					} else if fn, ok := d.Call.Value.(*ssa.Function); ok {
+						body = fn
+					}
+					if body == nil {
+						continue
+					}
+					for _, cc := range engine.Calls(body) {
+						if bi, ok := cc.Common().Value.(*ssa.Builtin); ok && bi.Name() == "recover" {
+							rec = true
+						}
+					}
+				}
+			}
+			r.Check(rec, rule, uniq(r, engine.RelName(f)+"|a snapshot file is imported under a recover"), p.InstrPos(c), "deferred recover in "+engine.RelName(top), "Importer.Add hashes a node before validating it and panics (\"Found an empty child hash\") for an inner node whose children were not imported; the nodes come from a snapshot file fetched by the CID of a manifest any peer can advertise, the root is compared only after the import, and "+engine.RelName(top)+" has no recover: the consensus engine goroutine dies — before the manifest is blacklisted, so again on every restart")
+		}
+	}
+	r.Check(n > 0, rule, "scan|Importer.Add call sites (control)", "", fmt.Sprint(n), "no call of the tree importer found in core/state: anchor moved")
+}
+
 func init() {
 	extend("C12", func(p *engine.Prog, r *engine.Report) {
 		bundleIndexBoundedRule(p, r, "C12-R14")
+		recipientEstablishedRule(p, r, "C12-R19")
+		peerPathPanicsRule(p, r, "C12-R20")
+		importerFedSafelyRule(p, r, "C12-R21")
 		offlineAddrEstablishedRule(p, r, "C12-R16")
 		peerDiffValueTestedRule(p, r, "C12-R17")
 		vrfScalarResultsTestedRule(p, r, "C12-R18")
 		nilableLookupRule(p, r, "C12-R15", []string{"consensus"}, []string{"Blockchain.GetBlockByHeight"}, nil, "the height comes from a block range a peer delivered: for a height this node does not store (below the first block of a fast-synced node, height 0) the lookup is empty and the goroutine that resolves forks dereferences nil — no recover on that path")
-		r.Explanation += " (R13) where an executor dereferences an empty-able lookup unchecked (VmImpl.terminate: GetCodeHash; applyTxOnState: the attachment parsers), the matching validator refuses the transaction on every path on which that lookup is empty; (R15) in package consensus the result of Blockchain.GetBlockByHeight (empty for a height this node does not store) is used only behind its non-nil test; (R16) an Offline* flag without an address is refused by ValidateHeader wherever OfflineAddr() is dereferenced unchecked; (R17) IdentityStateDB.AddDiff tests a peer's diff values for emptiness before any tree write; (R18) the VRF verifier tests scalar-multiplication results before adding them and the curve handles equal points / the point at infinity; (R14) a non-constant index into a peer-delivered []BlockBundle is bounded by the list's length (range, len-relative, tested, or behind a length agreement test)."
+		r.Explanation += " (R13) where an executor dereferences an empty-able lookup unchecked (VmImpl.terminate: GetCodeHash; applyTxOnState: the attachment parsers), the matching validator refuses the transaction on every path on which that lookup is empty; (R15) in package consensus the result of Blockchain.GetBlockByHeight (empty for a height this node does not store) is used only behind its non-nil test; (R21) the tree importer is fed with snapshot nodes only by a function that tests Add's error and has its own deferred recover; (R20) every explicit panic statement reachable (repo-only call graph) from the gossip handler, the fork loader and the sync batch processors is in a triaged table (function + reason); (R19) for every transaction type whose case in applyTxOnState dereferences tx.To unchecked, the registered validator refuses an absent recipient on every accepting path; (R16) an Offline* flag without an address is refused by ValidateHeader wherever OfflineAddr() is dereferenced unchecked; (R17) IdentityStateDB.AddDiff tests a peer's diff values for emptiness before any tree write; (R18) the VRF verifier tests scalar-multiplication results before adding them and the curve handles equal points / the point at infinity; (R14) a non-constant index into a peer-delivered []BlockBundle is bounded by the list's length (range, len-relative, tested, or behind a length agreement test)."
 		validatorEstablishesRule(p, r, "C12-R13", [][5]string{
 			{"vm", "VmImpl.terminate", "blockchain/validation", "validateTerminateContractTx", "GetCodeHash"},
 			{"blockchain", "Blockchain.applyTxOnState", "blockchain/validation", "validateBurnTx", "ParseBurnAttachment"},
 			{"blockchain", "Blockchain.applyTxOnState", "blockchain/validation", "validateChangeProfileTx", "ParseChangeProfileAttachment"},
 			{"blockchain", "Blockchain.applyTxOnState", "blockchain/validation", "validateDeleteFlipTx", "ParseDeleteFlipAttachment"},
 			{"blockchain", "Blockchain.applyTxOnState", "blockchain/validation", "validateSubmitFlipTx", "ParseFlipSubmitAttachment"},
+			{"vm", "VmImpl.IsWasm", "blockchain/validation", "validateDeployContractTx", "ParseDeployContractAttachment"},
+			{"vm", "VmImpl.deploy", "blockchain/validation", "validateDeployContractTx", "ParseDeployContractAttachment"},
 		}, "a block or a mempool transaction of that kind makes the node hit a nil dereference instead of returning a verdict (before any recover is installed)")
 	})
 	if os.Getenv("VERIF_RESET_PROBE") == "" {
 		return
 	}
+	register("XPANIC", func(p *engine.Prog, r *engine.Report) {
+		var entries []*ssa.Function
+		for _, e := range [][2]string{{"protocol", "IdenaGossipHandler.handle"}, {"consensus", "ForkResolver.loadAndVerifyFork"}, {"protocol", "fullSync.processBatch"}, {"protocol", "fastSync.processBatch"}, {"protocol", "fastSync.preConsuming"}, {"protocol", "fastSync.postConsuming"}} {
+			if f, err := p.Func(e[0], e[1]); err == nil {
+				entries = append(entries, f)
+			} else {
+				r.Note("XPANIC", "entry "+e[1], "", err.Error())
+			}
+		}
+		reach := p.Reach(entries, engine.ReachOpts{RepoOnly: true, NoFuncValueCHA: true})
+		for _, f := range engine.SortedFuncs(reach) {
+			if f.Blocks == nil || isTestish(p.Pos(f.Pos())) {
+				continue
+			}
+			hasRecover := false
+			for _, c := range engine.CallsDeep(f) {
+				if b, ok := c.Common().Value.(*ssa.Builtin); ok && b.Name() == "recover" {
+					hasRecover = true
+				}
+			}
+			for _, b := range f.Blocks {
+				for _, ins := range b.Instrs {
+					if pn, ok := ins.(*ssa.Panic); ok {
+						r.Note("XPANIC", uniq(r, engine.RelName(f)+"|panic"), p.InstrPos(pn), fmt.Sprintf("recover-in-func=%v %s", hasRecover, renderVal(pn.X, 0)))
+					}
+				}
+			}
+		}
+	})
 	register("XMK", func(p *engine.Prog, r *engine.Report) {
 		for _, f := range p.AllFuncs() {
 			if f.Blocks == nil || !engine.IsRepoPkg(engine.FuncPkg(f)) || isTestish(p.Pos(f.Pos())) {
